@@ -189,7 +189,7 @@ def runWire (c : WireCase) : Sx :=
     obsSx h.status h.groups.flatten h.tail h.rest.flatten [] calls ref
   else
     let st := feed consts c.svc dec bufCap c.chunks
-    obsSx st.status st.out st.tail [] st.seen calls ref
+    obsSx st.status st.out st.tail st.dropped st.seen calls ref
 
 /-! ### predicates on the implementation's observation -/
 
@@ -255,7 +255,7 @@ def wirePred (prop : String) (caseLine obsLine : String) : String :=
   match parse caseLine, parse obsLine with
   | some cs, some os =>
     match cs with
-    | .list [.atom "wire", _, svcSx, .list (.atom "reads" :: chunks), decSx] =>
+    | .list [.atom "wire", .atom mode, svcSx, .list (.atom "reads" :: chunks), decSx] =>
       match cfgOfSx svcSx, chunks.mapM asBytes, parseDec decSx, parseObs os with
       | some cfg, some chunks, some dec, some obs =>
         let total := chunks.flatten
@@ -263,7 +263,7 @@ def wirePred (prop : String) (caseLine obsLine : String) : String :=
         let v : Verdict :=
           match prop with
           | "C01" => P_C01 cfg fs obs
-          | "C02" => P_C02 cfg total obs
+          | "C02" => P_C02 cfg (mode == "feed") total obs
           | "C03" => P_C03 cfg fs obs
           | "C04" => P_C04 cfg fs obs
           | "C05" => P_C05 cfg fs obs
